@@ -69,7 +69,11 @@ func TestC13Binary(t *testing.T) {
 				return 0, nil
 			}
 			defer resp.Body.Close()
-			b, _ := io.ReadAll(resp.Body)
+			b, err := io.ReadAll(resp.Body)
+			if err != nil {
+				// (the connection was cut while the body was on its way - the program is shutting down: no answer)
+				return 0, nil
+			}
 			return resp.StatusCode, b
 		}
 		deadline := time.Now().Add(15 * time.Second)
